@@ -48,12 +48,29 @@ def recording():
             return _Rec(f, str(path), log)
         return f
 
+    import pathlib
+
     had = 'open' in vars(gt)
     old = vars(gt).get('open')
     gt.open = rec_open
+    p_open, p_wb, p_wt = pathlib.Path.open, pathlib.Path.write_bytes, pathlib.Path.write_text
+
+    def path_open(self, mode='r', *a, **kw):
+        f = p_open(self, mode, *a, **kw)
+        if any(c in mode for c in 'wax+'):
+            log.append(('open', str(self), mode))
+            return _Rec(f, str(self), log)
+        return f
+
+    def path_write_bytes(self, data):
+        with path_open(self, 'wb') as f:
+            return f.write(data)
+
+    pathlib.Path.open, pathlib.Path.write_bytes = path_open, path_write_bytes
     try:
         yield log
     finally:
+        pathlib.Path.open, pathlib.Path.write_bytes = p_open, p_wb
         if had:
             gt.open = old
         else:
